@@ -84,6 +84,11 @@ fn gap(t: &mut Tape, v: &Variant, must_have_blank: bool) -> String {
             s.push(if t.chance(1, 2) { '\t' } else { ' ' });
         }
     }
+    // v3: a block comment may stand directly behind the previous token, BEFORE the blank the rule text asks for
+    // (`ld;* c *; 5`): a comment between two tokens changes nothing
+    if v.comments && must_have_blank && crate::engine::gen_version() >= 3 && t.chance(1, 6) {
+        s.push_str(";* c *;");
+    }
     if must_have_blank {
         s.push(' ');
     }
